@@ -13,7 +13,9 @@
 (*   "PIN" the pinned loop structure: batches are cut from the un-rebased  *)
 (*         list (D1, D2) and a rejected add_version re-reads that list     *)
 (*         from storage (D3);                                              *)
-(*   "D4"  a snapshot is uploaded after any accepted batch.                *)
+(*   "D4"  a snapshot is uploaded after any accepted batch;                *)
+(*   "WIRE" local operations are sent as stored (undo points, old values)  *)
+(*         -- not a defect of the pinned tree, an anti-vacuity device.     *)
 (* Dev = {} is the documented algorithm.                                   *)
 (***************************************************************************)
 EXTENDS TCReplica
@@ -71,12 +73,14 @@ NextBatch(s) ==
       n == FirstBatchLen(rest)
   IN [s EXCEPT !.cur = SubSeq(rest, 1, n), !.pos = s.pos + n]
 
+Outgoing(ops) == IF "WIRE" \in Dev THEN ops ELSE ToSync(ops)
+
 SyncStart(r, av) ==
   /\ sy[r].pc = "idle" /\ MayStep(r)
   /\ LET d == db[r]
          s0 == [Idle EXCEPT !.pc = IF IsEmptyDb(d) THEN "snap" ELSE "pull",
                             !.tt = d.tasks, !.tb = d.base,
-                            !.cur = ToSync(d.ops), !.orig = ToSync(d.ops), !.av = av]
+                            !.cur = Outgoing(d.ops), !.orig = Outgoing(d.ops), !.av = av]
      IN sy' = [sy EXCEPT ![r] = IF Pinned THEN NextBatch(s0) ELSE s0]
   /\ UNCHANGED <<db, chain, snap, err>>
 
